@@ -268,14 +268,15 @@ def rip(cmd, ver, entries):
     return H(b, *range(4, len(b), 20), keys=(0, 1, 2, 3))
 
 
-def dhcp(op, options, hlen=6, magic=b"\x63\x82\x53\x63", sname=b"", file=b""):
+def dhcp(op, options, hlen=6, magic=b"\x63\x82\x53\x63", sname=b"", file=b"", optkeys=False):
     b = struct.pack("!BBBBIHHIIII", op, 1, hlen, 0, 0x3903f326, 0, 0x8000, 0, 0x0a000064, 0x0a000001, 0)
     b += (MAC_A + b"\0" * 10) + sname.ljust(64, b"\0") + file.ljust(128, b"\0") + magic
     marks = [2, 236, 237, 238, 239]
     for code, val in options:
         marks += [len(b), len(b) + 1]
         b += bytes([code]) if code in (0, 255) else bytes([code, len(val)]) + val
-    return H(b, keys=[0, 1] + marks)
+    # optkeys: only the option code / length octets are key offsets (the fixed part is swept on other frames)
+    return H(b, keys=marks[6::2] + marks[5:6] if optkeys == "len" else marks[5:] if optkeys else [0, 1] + marks)
 
 
 def dname(*labels):
@@ -452,6 +453,13 @@ def corpus():
                                                                (59, struct.pack("!I", 3150)), (28, bytes([10, 0, 0, 255])), (50, bytes([10, 0, 0, 100])), (255, b"")])))))
     add("dhcp-overload", eth(0x0800, ip4(17, udp(67, 68, dhcp(2, [(52, b"\x03"), (53, b"\x05"), (255, b"")], sname=bytes([12, 2]) + b"sn" + b"\xff", file=bytes([67, 4]) + b"boot" + b"\xff")))))
     add("bootp", eth(0x0800, ip4(17, udp(68, 67, dhcp(1, [], magic=b"\0\0\0\0")))))
+    # RFC 3396: the parser concatenates the instances of one option code, so a value can exceed 255 octets and has to be split again on pack():
+    # legally split long options of several totals, two different long options that one corrupted code byte makes one, boundary lengths
+    for total in (256, 300, 510, 511, 600):
+        parts = [bytes((i * 7 + j) & 0xff for j in range(min(255, total - i))) for i in range(0, total, 255)]
+        add("dhcp-long-%d" % total, eth(0x0800, ip4(17, udp(67, 68, dhcp(2, [(53, b"\x05")] + [(43, q) for q in parts] + [(255, b"")], optkeys=True)))))
+    add("dhcp-two-long", eth(0x0800, ip4(17, udp(67, 68, dhcp(2, [(53, b"\x05"), (43, bytes(range(180))), (67, b"f" * 90), (255, b"")], optkeys=True)))))
+    add("dhcp-opt-lens", eth(0x0800, ip4(17, udp(67, 68, dhcp(2, [(53, b"\x05"), (12, b""), (15, b"x"), (43, bytes(254)), (60, bytes(255)), (255, b"")], optkeys="len")))))
     add("dhcp-text-nonascii", eth(0x0800, ip4(17, udp(68, 67, dhcp(1, [(53, b"\x01"), (12, b"h\xf4st\xff"), (15, b"\xc3\x28.example"), (60, b"\x80vendor"),
                                                                     (61, b"\x00\xffid"), (255, b"")], sname=b"srv\xe9\xff", file=b"\xfeboot\x80")))))
     add("dhcp-hlen16", eth(0x0800, ip4(17, udp(68, 67, dhcp(1, [(255, b"")], hlen=16)))))
